@@ -47,6 +47,9 @@ def make_cases(ctx, d, zero_hc):
         add(o, bytes_in([]), [{"op": "readfrom", "n": 0}, {"op": "close"}])
         add(o, fl.input_for(rnd, 60, "text"), [{"op": "write", "n": 20}, {"op": "flush"}, {"op": "write", "n": 25}, {"op": "flush"},
                                                {"op": "write", "n": 15}, {"op": "close"}], noflush=False)
+        if not o["legacy"] and B <= 262144:
+            # a short Write that leaves bytes pending, then one of more than a block, then the rest
+            add(o, fl.input_for(rnd, 2 * B + 157, "text"), [{"op": "write", "n": 100}, {"op": "write", "n": B + 50}, {"op": "write", "n": B + 7}, {"op": "close"}])
         if o["legacy"]:
             if vi % 3 == 0 or not q:
                 add(o, fl.input_for(rnd, B + 1, "text"), [{"op": "write", "n": B + 1}, {"op": "close"}])
